@@ -67,7 +67,7 @@ def simcore_oracle(case, obs):
         m = markers.get(key)
         finished_before = m is not None and m[0] < x
         prog = d["prog"]
-        ntasks = 1 + len(prog.get("tasks", [])) + (1 if prog.get("ticker") else 0)
+        ntasks = 1 + F.n_guarded_tasks(prog) + (1 if prog.get("ticker") else 0)
         polled = any(evinfo[i]["name"] == "step" and evinfo[i]["o"]["r"].startswith("ok")
                      for i in range(d["start_ev"] + 1, x))
         dropped = drops_by.get(key, [])
